@@ -17,6 +17,7 @@ LEVEL_NOTE = ("Not decided: everything about computed *values* (that each evalua
               "discipline only; it would not notice e.g. `&=` replaced by `|=` in a value computation outside the listed features.")
 LEVEL_TEXT += (' Also: (C04.S) a strict scoped definition/assignment writes the variable map of the evaluated scope node itself; (E3.r) `$n` reads current_regex_captures[n] and a missing entry is UndefinedRegexCapture in both modes; (E5.var) VariableMap::add refuses a second definition and VariableMap::set writes mutable bindings only.  New helper functions are inlined into their callers before the rules run, and internal iteration (try_for_each/for_each with a local closure) is desugared to the explicit loop, so a refactoring does not change the verdict.')
 LEVEL_TEXT += (" (E5.mut) `var` is the only mutable definition, in checker, strict and lazy alike; (E3.ctx) nested blocks run in the enclosing context except for their own locals / error context (and a scan arm's captures); (E5.keep) the interpreters drop, merge or reorder elements of their collections only at the listed sites; results returned by closures are consumed only by error-keeping adaptors.")
+LEVEL_TEXT += (' (E5.store) deferred thunks are write-once (no element of the store is overwritten or handed out mutably); (E5.key) no table keyed by rendered text; the stanza-level full-match lookup takes the first node of the capture (E2.x-c), so the block runs for every match.')
 
 
 def run(prog, rep):
@@ -42,6 +43,7 @@ def run(prog, rep):
     # once per match of the query: captures come from tree-sitter's own iterator and no cursor is restricted (C03.C);
     # lazy mode evaluates everything it deferred, in the phase order, and memoises scoped definitions (E6.p, E6.o, C04.M)
     C03.capture_and_cursor(prog, rep)
+    C03.full_match_lookup(prog, rep)
     C02.lazy_phases(prog, rep)
     C08.lazy_routing(prog, rep)
     C04.memo_rule(prog, rep)
@@ -52,6 +54,8 @@ def run(prog, rep):
     e5.variable_map_shape(prog, rep, "E5.var")
     e5.mutability_flags(prog, rep)
     e5.no_dropped_elements(prog, rep)
+    e5.no_text_keyed_tables(prog, rep)
+    e5.deferred_stores_append_only(prog, rep, "E5.store")
     rep.rule("E2.d", "the result of every fallible call in the interpreter, graph, variables and functions modules is propagated, returned, "
                      "matched with an error-returning Err arm, or is a listed intentional absorption")
     files = ("src/execution/strict.rs", "src/execution.rs", "src/graph.rs", "src/variables.rs", "src/functions.rs", "src/execution/lazy.rs",
